@@ -91,6 +91,7 @@ Inductive event :=
 | RefHs (p ridx ep : N)            (* the remote initiates from ep announcing index ridx, and confirms with a keepalive *)
 | AnswerHs (p ridx ep : N)         (* the remote answers our outstanding initiation from ep, announcing ridx *)
 | Roam (p ep : N)                  (* authenticated keepalive of the remote arriving from ep *)
+| SetEp (p ep : N)                 (* UAPI set with endpoint= in the section of peer p; the section ends with SendStagedPackets *)
 | ReplayInit (p ep : N)            (* a byte-identical copy of p's most recent (already consumed) handshake initiation arrives
                                       from ep, later than HandshakeInitationRate after the original: its timestamp is not
                                       greater than the last one, so it is dropped: no response, no new key, endpoint unchanged *)
@@ -198,6 +199,13 @@ Definition peer_step (tbl : list entry) (mtu : Z) (up : bool) (i : N) (p : peer)
       else (p', o)
   | MtuUpdate _ => (p, [])
   | ReplayInit _ _ => (p, [])
+  | SetEp j ep =>
+      (* handlePeerLine "endpoint", then handlePostConfig of the section: peer.Start() (no-op, it runs) and
+         peer.SendStagedPackets(): whatever is staged goes out (or an initiation) toward the new endpoint *)
+      if j =? i then
+        send_staged mtu i {| p_ep := Some ep; p_sess := p_sess p; p_hs_recent := p_hs_recent p;
+                             p_init_out := p_init_out p; p_staged := p_staged p |}
+      else (p, [])
   | RefHs j ridx ep =>
       if j =? i then
         (* response goes out (lastSentHandshake = now), the confirming keepalive
